@@ -957,6 +957,14 @@ J_humanize(e) ==
        ELSE IF p.k # "str" THEN << <<"kind", p.k>> >>
        ELSE V("non-empty", Len(p.v) > 0, "non-empty") \o V("placeholders-substituted", ~Has(p.v, 123) /\ ~Has(p.v, 125), "no { }")
             \o V("harness-direction", a.invert = later, later)
+            \* the components the phrase is built from are the library's own decomposition of the interval: where that
+            \* decomposition is a plain split of the elapsed time (no years or months; end-points in differently named zones -
+            \* decomposed in UTC - or under one constant offset) they must add up to the elapsed whole seconds
+            \o (IF x.k = "dt" /\ y.k = "dt" /\ c[1] = 0 /\ c[2] = 0
+                   /\ (ZRef(x.z) # ZRef(y.z) \/ x.z.n \in {"", "UTC", "naive"})
+                THEN LET el == MagSec(Elapsed(x, y)) IN
+                     V("components-add-up-to-elapsed", <<7 * c[3] + c[4], c[5] * 3600 + c[6] * 60 + c[7]>> = el, el)
+                ELSE <<>>)
             \o V("phrase", p.v \in cands, cands))
 J_in_words(e) ==
   LET a == e.a  p == e.post  L == LOC[a.locale]
